@@ -3,7 +3,7 @@
 //@ item src/word.rs struct SegPos
 //@ item src/word.rs impl SegPos members=new,reversed,increment,decrement,at_word_start,at_word_end,at_syll_start,at_syll_end
 //@ item src/word.rs struct Word
-//@ item src/word.rs impl Word members=in_bounds,out_of_bounds,get_seg_at,seg_length_at
+//@ item src/word.rs impl Word members=in_bounds,out_of_bounds,get_seg_at,seg_length_at,apply_seg_mods
 
 //@ post
 // ------------------------------------------------------------------ positions in a word
@@ -13,6 +13,7 @@ pub closed spec fn wf_word(w: Word) -> bool {
 }
 pub closed spec fn nsyll(w: Word) -> int { w.syllables@.len() as int }
 pub closed spec fn nseg(w: Word, s: int) -> int { w.syllables@[s].segments@.len() as int }
+pub closed spec fn syll_at(w: Word, s: int) -> Syllable { w.syllables@[s] }
 pub closed spec fn segs(w: Word, s: int) -> Seq<Segment> { w.syllables@[s].segments@ }
 pub closed spec fn inb(w: Word, p: SegPos) -> bool {
     p.syll_index < nsyll(w) && p.seg_index < nseg(w, p.syll_index as int)
@@ -132,4 +133,18 @@ fn law_reversed(w: &Word, p: SegPos)
 //@ contract Word::seg_length_at ret=r
     requires /*#seg_length_at.in_bounds C02*/ inb(*self, seg_index),
     ensures /*#seg_length_at C03,C05*/ r as int == run_len(segs(*self, seg_index.syll_index as int), seg_index.seg_index as int),
+//@ end
+
+//@ contract Word::apply_seg_mods ret=r
+    requires
+        /*#word_apply_seg_mods.in_bounds C02*/ inb(*old(self), start_pos),
+        nseg(*old(self), start_pos.syll_index as int) + 3 <= isize::MAX,
+    ensures
+        /*#word_apply_seg_mods.other_syllables_untouched C14*/ nsyll(*final(self)) == nsyll(*old(self))
+            && forall|s: int| 0 <= s < nsyll(*old(self)) && s != start_pos.syll_index ==> syll_at(*final(self), s) == syll_at(*old(self), s),
+        /*#word_apply_seg_mods.segmental_only_keeps_boundaries_stress_tone C14*/ (r is Ok && mods.suprs.length[0].is_none() && mods.suprs.length[1].is_none()
+            && mods.suprs.stress[0].is_none() && mods.suprs.stress[1].is_none() && mods.suprs.tone.is_none()) ==> (
+            nseg(*final(self), start_pos.syll_index as int) == nseg(*old(self), start_pos.syll_index as int)
+            && syll_at(*final(self), start_pos.syll_index as int).stress == syll_at(*old(self), start_pos.syll_index as int).stress
+            && syll_at(*final(self), start_pos.syll_index as int).tone == syll_at(*old(self), start_pos.syll_index as int).tone),
 //@ end
